@@ -519,6 +519,14 @@ def _exemptions(repo, fn):
                 b_ = b_["stmts"][0]["expr"]
             consumed.add(id(b_))  # the `if let` that IS this variant filter is not a second exemption
             out.append(("filter", f"is<{keep}>({render(scrut, envs.get(id(scrut)))})", n["l"]))
+        elif k == "MethodCall" and n["method"] == "find_map" and n["args"] and n["args"][0]["k"] == "Closure":
+            # `xs.find_map(|x| if <test> { Some(..) } else { None })` SEARCHES for the first element that passes the test (the offending
+            # one, in a validator): the `if` inside is the detection predicate, not an exemption
+            b_ = n["args"][0]["body"]
+            while b_["k"] == "Block" and b_["stmts"] and b_["stmts"][-1]["k"] == "ExprStmt" and not b_["stmts"][-1].get("semi"):
+                b_ = b_["stmts"][-1]["expr"]
+            if b_["k"] == "If":
+                consumed.add(id(b_))
         elif k == "MethodCall" and n["method"] in DROPPERS:
             clo = [a for a in n["args"] if a["k"] == "Closure"]
             if clo:
